@@ -11,51 +11,14 @@ verus! {
 //@include prelude/chrono_stub.rs
 //@include prelude/crypto_types.rs
 
-// ---- types: VirtualTargetPath, rules, links (real definitions) ----
-pub type TargetDescription = HashMap<HashAlgorithm, HashValue>;
-//@take src/crypto.rs enum:HashAlgorithm drop_derives=Debug,Clone,PartialOrd,Ord
-//@take src/crypto.rs struct:HashValue drop_derives=Clone
-impl std::fmt::Debug for HashAlgorithm { #[verifier::external_body] fn fmt(&self, f: &mut std::fmt::Formatter) -> std::fmt::Result { unimplemented!() } }
-impl std::fmt::Debug for HashValue { #[verifier::external_body] fn fmt(&self, f: &mut std::fmt::Formatter) -> std::fmt::Result { unimplemented!() } }
-//@take src/models/helpers.rs struct:VirtualTargetPath drop_derives=Debug,Clone
-impl Clone for VirtualTargetPath { #[verifier::external_body] fn clone(&self) -> (r: Self) ensures r == *self { unimplemented!() } }
-impl std::fmt::Debug for VirtualTargetPath { #[verifier::external_body] fn fmt(&self, f: &mut std::fmt::Formatter) -> std::fmt::Result { unimplemented!() } }
-//@take src/models/layout/rule.rs enum:Artifact drop_derives=Clone,PartialEq,Eq
-//@take src/models/layout/rule.rs enum:ArtifactRule drop_derives=Clone,PartialEq,Eq
-impl ArtifactRule {
-//@extract src/models/layout/rule.rs impl:ArtifactRule/fn:pattern props=C03
-//@contract ret=r
-    ensures *r == rule_pattern(*self),
-//@end
-}
-pub open spec fn rule_pattern(r: ArtifactRule) -> VirtualTargetPath {
-    match r {
-        ArtifactRule::Create(p) => p, ArtifactRule::Delete(p) => p, ArtifactRule::Modify(p) => p, ArtifactRule::Allow(p) => p,
-        ArtifactRule::Require(p) => p, ArtifactRule::Disallow(p) => p, ArtifactRule::Match { pattern, .. } => pattern,
-    }
-}
-#[verifier::external_body] pub struct ByProducts { _opaque: u8 }
-#[verifier::external_body] pub struct Command { _opaque: u8 }
-//@take src/models/link/metadata.rs struct:LinkMetadata drop_derives=Debug,Clone,PartialEq,Eq
-pub type ArtifactMap = BTreeMap<VirtualTargetPath, TargetDescription>;
-// the trait declaration of src/models/layout/supply_chain_item.rs with ghost views of its accessors
-pub trait SupplyChainItem {
-    spec fn name_v(&self) -> Seq<char>;
-    spec fn mats_v(&self) -> Seq<ArtifactRule>;
-    spec fn prods_v(&self) -> Seq<ArtifactRule>;
-    fn name(&self) -> (r: &str) ensures r@ == self.name_v();
-    fn expected_materials(&self) -> (r: &Vec<ArtifactRule>) ensures r@ == self.mats_v();
-    fn expected_products(&self) -> (r: &Vec<ArtifactRule>) ensures r@ == self.prods_v();
-}
-//@include prelude/rulelib_stubs.rs
+//@include contracts/rulelib_types.rs
 
 // ---- the specification's rule algorithm (written from the in-toto spec 4.4 / property C03) ----
 pub open spec fn matches_pat(pat: VirtualTargetPath, p: VirtualTargetPath) -> bool { glob_ok(pat.text(), p.text()) == Some(true) }
 pub open spec fn filtered_by(rule: ArtifactRule, queue: Set<VirtualTargetPath>) -> Set<VirtualTargetPath> {
     queue.filter(|p: VirtualTargetPath| matches_pat(rule_pattern(rule), p))
 }
-// what a MATCH rule consumes (meaning: verify_match_rule, see below)
-pub uninterp spec fn match_consumed(rule: ArtifactRule, artifacts: Map<VirtualTargetPath, TargetDescription>, queue: Set<VirtualTargetPath>, links: Map<String, LinkMetadata>) -> Set<VirtualTargetPath>;
+//@include contracts/match_spec.rs
 pub struct RuleCtx {
     pub created: Set<VirtualTargetPath>, pub deleted: Set<VirtualTargetPath>, pub modified: Set<VirtualTargetPath>,
     pub artifacts: Map<VirtualTargetPath, TargetDescription>, pub links: Map<String, LinkMetadata>,
@@ -84,11 +47,6 @@ pub open spec fn rules_upto(rules: Seq<ArtifactRule>, n: int, queue0: Set<Virtua
 }
 
 // ---- apply_rules_on_link ----
-pub uninterp spec fn canon_of(p: VirtualTargetPath) -> Option<VirtualTargetPath>;
-//@extract src/rulelib.rs fn:canonicalize_path stub
-//@contract ret=r
-    ensures r == canon_of(*path),    // assumed: path_clean::clean is a function of the text
-//@end
 // D32: `M.iter().filter_map(|(path, _)| canonicalize_path(path)).collect::<BTreeSet<_>>()`
 #[verifier::external_body]
 fn canon_paths(m: &ArtifactMap) -> (r: BTreeSet<VirtualTargetPath>)
@@ -108,8 +66,6 @@ pub open spec fn entry_differs(l: LinkMetadata, name: VirtualTargetPath) -> bool
     (if l.materials@.contains_key(name) { Some(l.materials@[name]) } else { None::<TargetDescription> })
     != (if l.products@.contains_key(name) { Some(l.products@[name]) } else { None::<TargetDescription> })
 }
-// the cleaned paths of the artifacts recorded in a link (meaning: canonicalize_path over the map's keys)
-pub uninterp spec fn canon_set(m: Map<VirtualTargetPath, TargetDescription>) -> Set<VirtualTargetPath>;
 // the context of one pass (materials or products) of an item
 pub open spec fn pass_ctx(l: LinkMetadata, artifacts: Map<VirtualTargetPath, TargetDescription>, links: Map<String, LinkMetadata>) -> RuleCtx {
     let m = canon_set(l.materials@);
@@ -126,8 +82,7 @@ pub open spec fn item_verdict(name: Seq<char>, mats: Seq<ArtifactRule>, prods: S
 }
 //@extract src/rulelib.rs fn:verify_match_rule stub
 //@contract ret=r
-    requires rule is Match,
-    ensures r@ == match_consumed(*rule, src_artifacts@, src_artifact_queue@, items_metadata@),
+//@include contracts/verify_match_rule.rs
 //@end
 // the SupplyChainItem accessors as ghost views (trait objects)
 pub open spec fn item_name(i: &Box<dyn SupplyChainItem>) -> Seq<char> { (**i).name_v() }
@@ -214,6 +169,7 @@ proof fn lemma_rules_none(rules: Seq<ArtifactRule>, n: int, m: int, q0: Set<Virt
                 it1.index() == 0 || it1.index() == 1,
                 it1.index() == 0 ==> rs == mats && q0 == qm && c == cm,
                 it1.index() == 1 ==> rs == prods && q0 == qp && c == cp && rules_upto(mats, mats.len() as int, qm, cm) is Some,
+                queue@.subset_of(q0) && q0 == canon_set(artifacts@),
                 exists|key: String| key@ == item_name@ && links.contains_key(key) && links[key] == l,
                 item_name@ == crate::item_name(item) && mats == item_mats(item) && prods == item_prods(item),
                 cm == pass_ctx(l, l.materials@, links) && cp == pass_ctx(l, l.products@, links),
@@ -272,6 +228,7 @@ proof fn lemma_rules_none(rules: Seq<ArtifactRule>, n: int, m: int, q0: Set<Virt
                         }
 //@before /let consumed = match rule \{/
             let ghost qold = queue@;
+            proof { fact_rekeyed(artifacts@); }
             assert(*rule == rs[it2.index() as int]);
             assert(filtered@ =~= filtered_by(*rule, qold));
 //@before /queue = btreeset_difference_cloned\(&queue, &consumed\);/
